@@ -146,7 +146,7 @@ class Gen:
         elif x < 0.95:
             self.ops.append({"op": "clear", "p": p})
         elif self.pipes[p]["cls"] == "simple":
-            self.ops.append({"op": "end", "p": p})
+            self.ops.append({"op": r.choice(["end", "flush", "flush"]), "p": p})
 
     def msg(self, texts=TEXTS):
         r = self.rnd
@@ -159,11 +159,18 @@ def gen_tree_scenario(rnd, sid, focus):
     g.ops.append({"op": "root", "p": root})
     for _ in range(rnd.randint(3, 16)):
         g.build_step(focus)
+    def flushes():
+        # SimplePipeline::flush() walks every sink below it (QtlPipeline!FlushWalk)
+        for q, d in list(g.pipes.items()):
+            if d["cls"] == "simple" and rnd.random() < 0.5:
+                g.ops.append({"op": "flush", "p": q})
+    flushes()
     nm = rnd.randint(1, 8)
     for k in range(nm):
         g.msg()
         if rnd.random() < 0.15:
             g.build_step(focus)      # pipelines may be changed between messages
+            flushes()
     return {"id": sid, "ops": g.ops}
 
 
